@@ -81,7 +81,14 @@ def run_job(job):
     install_context()
     seed = job['seed']
     params = dict(DEFAULTS, **job.get('params', {}))
-    refs, queries, truths = pl.gen_set(seed, kinds=job.get('kinds', pl.KINDS), weights=job.get('weights'), odd_refs=job.get('odd_refs', False))
+    if job.get('generator') == 'planted':
+        # one reference with exact copies of interior windows as queries and near-duplicates of two windows further on (the C06 generator):
+        # several seeds of one query pair all of its labels, only one of them is the best candidate
+        from bcheck import c06
+        ref, queries, truths = c06.gen(seed)
+        refs = [ref]
+    else:
+        refs, queries, truths = pl.gen_set(seed, kinds=job.get('kinds', pl.KINDS), weights=job.get('weights'), odd_refs=job.get('odd_refs', False))
     d = pl.make_workdir(refs, queries)
     out = dict(records=0, nontrivial=0, violations=[], runs=0)
     try:
